@@ -1,28 +1,101 @@
 """C42 - Subprocess exit is reported once with the right status.
+
+MC : specs/proc/SubprocessExit.tla - every interleaving of child exits (0 / non-zero / signal /
+     core), registrations (set_exit_callback, wait_for_exit with and without raise_error),
+     coalescing and spurious SIGCHLD deliveries, future cancellations and explicit
+     initialize / uninitialize over 2 (quick) / 3 (thorough) concurrent children; invariants
+     CallbackOnce, FutureOutcome, ReturnCodeRight, ReportedAtQuiescence, action properties
+     ExitBeforeRegister, Sticky; liveness EventuallyReported under fair delivery (LiveSpec).
+S2C: every history up to the bound enumerated by TLC is replayed on real
+     tornado.process.Subprocess objects on the virtual loop (Popen / waitpid answered by a
+     scripted kernel; the SIGCHLD handler Tornado installs is invoked as asyncio would);
+     callback values, future states, returncodes, escaped exceptions compared after every step.
+     Plus seeded TLC simulation walks over 3 children.
+C2S: seeded random schedules over up to 8 children with arbitrary statuses recorded from the
+     real objects and validated by TLC against Trace_SubprocessExit.
+Thorough only: real children (all exit codes 0..255, terminating signals) run through the
+     unshimmed Subprocess with the real SIGCHLD handler; TLC checks the kernel's raw status
+     against WaitStatus!Encode (the encoding every scripted run of C41/C42 relies on) and the
+     reported values against the model's reporting operators.
+
+Binding demonstrated during development (VERIF_REPO=/tmp/wt-proc, see notes/proc.md): sign of the
+signal returncode flipped; the poll at registration dropped; `ret != 0` -> `ret > 0` in
+wait_for_exit; _cleanup polling only the first waiting pid; `if ret_pid == 0: return` dropped -
+each reported as VIOLATION by the replay and by trace validation.
 """
 from harness import framework
-from harness.proc_driver import replay_subprocess, gen_paths_fast, random_subprocess_trace
+from harness.proc_driver import (replay_subprocess, gen_paths_fast, random_subprocess_trace,
+                                 real_children_trace, REAL_SIGNALS, binding_selftest)
 
-MAXC_GEN = 2
+ACTIONS = ["Exit", "Register", "Sigchld", "CancelWait", "Initialize", "Uninitialize"]
 
 
 def replayer(extra, path):
-    return replay_subprocess(extra["cfg"], path, MAXC_GEN)
+    return replay_subprocess(extra["cfg"], path, len(path[0]["exp"]["rc"]))
+
+
+def _nontrivial(extra, path):
+    return len(path) >= 3 and any(s["act"] == "register" for s in path)
+
+
+def _trace_sig(t, bad, l):
+    if not bad:
+        return {}
+    sig = {"args": bad.get("args") if bad.get("a") == "real" else None}
+    if isinstance(bad.get("obs"), dict):
+        sig["err"] = bad["obs"].get("err")
+    return sig
 
 
 def run(ctx):
+    # 1. model checking (safety, then liveness under fair SIGCHLD delivery)
     ctx.mc("proc", "SubprocessExit", "MC_SubprocessExit.cfg",
-           required_actions=["Exit", "Register", "Sigchld", "CancelWait", "Initialize", "Uninitialize"])
-    L = ctx.pick(4, 5)
-    paths = gen_paths_fast(ctx, "proc", "Gen_SubprocessExit", "Gen_SubprocessExit.cfg", overrides={"L": L})
-    ctx.replay(paths, replayer, nontrivial=lambda e, p: len(p) >= 3)
+           overrides=ctx.pick({}, {"NCs": "{3}", "MaxC": 3, "Statuses": "{0, 1, 1009, 2011}"}),
+           required_actions=ACTIONS)
+    ctx.mc("proc", "SubprocessExit", "MC_SubprocessExit_live.cfg", required_actions=ACTIONS)
+    # 2. spec -> code: all histories up to the bound
+    la, lb = ctx.pick((4, 5), (5, 6))
+    paths = gen_paths_fast(ctx, "proc", "Gen_SubprocessExit", "Gen_SubprocessExit.cfg",
+                           overrides={"L": la, "Ext": True})
+    ctx.replay(paths, replayer, nontrivial=_nontrivial)
+    paths = gen_paths_fast(ctx, "proc", "Gen_SubprocessExit", "Gen_SubprocessExit.cfg",
+                           overrides={"L": lb, "Ext": False})
+    ctx.replay(paths, replayer, nontrivial=_nontrivial, label="s2c-noext")
     ctx.cov["exhaustive"] = True
-    n = ctx.pick(200, 5000)
+    sims = ctx.sim_paths("proc", "Gen_SubprocessExit", "Gen_SubprocessExit.cfg", num=ctx.pick(150, 3000), depth=16,
+                         overrides={"L": 16, "MaxSpur": 4, "NCs": "{3}", "MaxC": 3, "Statuses": "{0, 1, 255, 1009, 1015, 2011}"})
+    ctx.replay(sims, replayer, nontrivial=_nontrivial, label="s2c-sim")
+    # 3. code -> spec: random recorded schedules
+    n = ctx.pick(300, 6000)
     maxc = 8
-    jobs = [(i + 1, ctx.seed * 1000003 + i, maxc, ctx.pick(40, 60)) for i in range(n)]
+    jobs = [(i + 1, ctx.seed * 1000003 + i, maxc, ctx.pick(40, 70)) for i in range(n)]
     traces = framework.pool_map(random_subprocess_trace, jobs)
-    ctx.validate("proc", "Trace_SubprocessExit", "Trace_SubprocessExit.cfg", traces, overrides={"MaxC": maxc})
-    ctx.cov["rule"] = "every history up to length %d" % L
+    verdict = ctx.validate("proc", "Trace_SubprocessExit", "Trace_SubprocessExit.cfg", traces, overrides={"MaxC": maxc},
+                           sig_fn=_trace_sig)
+    # non-vacuity of both bindings
+    good = [t for t in traces if verdict[t["id"]] is None]
+
+    def corrupt(o):
+        o["rc"] = [(-9 if r == 999 else r + 1) for r in o["rc"]]
+    binding_selftest(ctx, "Trace_SubprocessExit", "Trace_SubprocessExit.cfg", {"MaxC": maxc}, good,
+                     paths, replayer, corrupt)
+    rule = ("paths: every history of exit(status in {0,3,signal 9})/register(cb|wr|wn)/sigchld/cancel/initialize/uninitialize "
+            "up to length %d, and without (un)initialize up to length %d, over 2 children (at most one spurious delivery); "
+            "seeded TLC simulation walks over 3 children (depth 16); random recorded schedules over <= 8 children; "
+            "distinct = distinct (config, event sequence); non-trivial = length >= 2 with a registration" % (la, lb))
+    # 4. thorough: real children validate the status encoding and the reports
+    if not ctx.quick:
+        kinds = ("cb", "wr", "wn")
+        items = [(st, kinds[st % 3], st % 2 == 0) for st in range(256)]
+        items += [(1000 + s, k, late) for s in REAL_SIGNALS for k in kinds for late in (False, True)]
+        items += [(3000 + s, k, s == 6) for s in (3, 6) for k in kinds]      # core dumps enabled (if the kernel dumps)
+        real = [real_children_trace((i + 1, items[j:j + 40])) for i, j in enumerate(range(0, len(items), 40))]
+        ctx.validate("proc", "Trace_SubprocessExit", "Trace_SubprocessExit.cfg", real, overrides={"MaxC": 1},
+                     label="c2s-real", shards=1, sig_fn=_trace_sig)
+        ctx.cov["real_children"] = len(items)
+        ctx.cov["trusted_base"].append("real children: /bin/sh exit codes and self-sent signals, asyncio's SIGCHLD delivery (wall clock)")
+        rule += "; %d real child processes (exit codes 0..255, signals %s)" % (len(items), REAL_SIGNALS)
+    ctx.cov["rule"] = rule
 
 
 def replay(ctx, rec):
@@ -31,5 +104,14 @@ def replay(ctx, rec):
         r = replayer(d["extra"], d["path"])
         print("replay:", "diverges " + framework.jdump(r) if r else "follows the specification")
         return 1 if r else 0
-    print("trace replays are validated with: ./check C42 (trace stored in the replay file)")
-    return 0
+    if "trace" in d:
+        t = d["trace"]
+        real = any(e.get("a") == "real" for e in t["ev"])
+        if "job" in t:          # re-record the same seeded schedule from the code under test
+            t = random_subprocess_trace(tuple(t["job"]))
+        v = ctx.validate("proc", "Trace_SubprocessExit", "Trace_SubprocessExit.cfg", [t],
+                         overrides={"MaxC": 1 if real else 8}, shards=1)
+        bad = v.get(t["id"])
+        print("replay:", "recorded trace rejected at event %s" % bad["at"] if bad else "recorded trace accepted by the specification")
+        return 1 if bad else 0
+    return 2
